@@ -37,9 +37,14 @@ theorem body_text (ok ck : Kind) (o c : Char) (b : Bracket) :
     tokText (b.body ok ck o c) = o :: ((b.items.map Item.str).flatten ++ gapStr b.post ++ [c]) := by
   simp [Bracket.body, itemsToks_text]
 
+theorem colonTail_text (qs : List Str) : tokText (colonTail qs) = (qs.map fun q => ':' :: q).flatten := by
+  induction qs with
+  | nil => rfl
+  | cons q qs ih => simp [ih]
+
 theorem version_toks_text (v : VersionA) : tokText v.toks = v.str := by
-  cases v with
-  | mk epoch body => cases epoch <;> simp [VersionA.toks, VersionA.str]
+  rw [VersionA.str_eq]
+  simp [VersionA.toks, colonTail_text]
 
 theorem opToks_text (op : VC) : tokText (opToks op) = op.display := by
   cases op <;> simp [opToks, VC.display]
